@@ -166,7 +166,7 @@ fn run_row(case: &Value) -> Vec<(String, Value, Value)> {
   let obtainable = b(&out["obtainable"]);
   let Some(j) = got else {
     if obtainable {
-      diffs.push(("coherent_key_refused".into(), json!("obtainable"), json!("refused")));
+      diffs.push(("~coherent_key_refused".into(), json!("obtainable"), json!("refused")));
     }
     return diffs;
   };
@@ -249,7 +249,7 @@ fn run_row(case: &Value) -> Vec<(String, Value, Value)> {
       }
       Err(_) => {
         if b(&out["method_ok"]) {
-          diffs.push((format!("method_refused/{name}"), json!("built"), json!("refused")));
+          diffs.push((format!("~method_refused/{name}"), json!("built"), json!("refused")));
         }
       }
     }
